@@ -1,6 +1,7 @@
 import Pog.Lemmas.Diff
 import Pog.Model.Plan
 import Pog.Model.Fresh
+import Pog.Lemmas.Fresh
 /-
   C09 — generating twice from the same document and options produces byte-identical file trees;
   a re-run without force over an up-to-date output reports no differences and succeeds; when the
@@ -25,7 +26,7 @@ import Pog.Model.Fresh
       noforce_empty_old_tree_counterexample                  ✗ an EMPTY existing package directory "matches"
 
     force path = diff path?  (FULL ✗: a non-force re-run over a force-generated tree succeeds)
-      dedup_not_idempotent_counterexample                    ✗ `emit ∘ emit ≠ emit` on `foo, foo, foo_2`
+      dedup_idempotent (F17 repaired)                        full: the id de-duplication of `emit` is idempotent on every input; `dedup_idempotent_former_witness` (`foo, foo, foo_2`)
       force_equals_diff_path_former_witness (F19 repaired)   the force tree equals the diff tree for `foo, foo, foo_2`; formerly `endpoints/default.py` and
                                                                `mocks/endpoints/mock_default.py` differ
       force_equals_diff_path_idempotent_example              the two trees coincide for `foo, bar`
@@ -190,14 +191,17 @@ theorem noforce_decision (oldOut newOut oldCore newCore : Tree) (distinct : Bool
 
 /-! ## force path vs diff path -/
 
-/-- ✗ `EndpointsEmitter.emit` renames operation ids IN PLACE (`_deduplicate_operation_ids_globally`)
-    and the force path evaluates it twice (client_generator.py:431 and, inside the f-string of the
-    log line, :435).  The pass is not idempotent. -/
-theorem dedup_not_idempotent_counterexample :
+/-- `EndpointsEmitter.emit` renames operation ids IN PLACE (`_deduplicate_operation_ids_globally`), so a second `emit` over the
+    same operation objects sees the renamed ids.  The pass is idempotent on EVERY input (F17 repaired: the names it hands out are
+    pairwise distinct, so a second run finds nothing to rename) - it used not to be (`dedup_idempotent_former_witness`). -/
+theorem dedup_idempotent (ids : List Str) : dedupOpIds [] (dedupOpIds [] ids) = dedupOpIds [] ids :=
+  Pog.dedupOpIds_idempotent ids
+
+/-- The former witness: `foo, foo, foo_2` used to become `foo, foo_2, foo_2` and, run again, `foo, foo_2, foo_2_2`. -/
+theorem dedup_idempotent_former_witness :
     let ids := ["foo".toList, "foo".toList, "foo_2".toList]
-    dedupOpIds [] ids = ["foo".toList, "foo_2".toList, "foo_2".toList] ∧
-    dedupOpIds [] (dedupOpIds [] ids) = ["foo".toList, "foo_2".toList, "foo_2_2".toList] ∧
-    dedupOpIds [] (dedupOpIds [] ids) ≠ dedupOpIds [] ids := by
+    dedupOpIds [] ids = ["foo".toList, "foo_2".toList, "foo_2_2".toList] ∧
+    dedupOpIds [] (dedupOpIds [] ids) = dedupOpIds [] ids := by
   decide
 
 /-- `n` applications of the de-duplication pass -/
@@ -242,14 +246,14 @@ def treeDiff (a b : Tree) : List (List Str) :=
   (b.filter (fun e => (a.lookup e.1).isNone)).map (·.1)
 
 /-- `force_equals_diff_path` on the former witness of F19 (repaired: the force path evaluates every emitter once). With operation ids
-    `foo, foo, foo_2` the force tree and the tree the diff path compares against are now the same - both carry the (still
-    colliding, F17) names `foo, foo_2, foo_2` - and a non-force re-run over a tree just generated with `--force` reports no
+    `foo, foo, foo_2` the force tree and the tree the diff path compares against are now the same - both carry the (now
+    distinct, F17 repaired) names `foo, foo_2, foo_2_2` - and a non-force re-run over a tree just generated with `--force` reports no
     differences. -/
 theorem force_equals_diff_path_former_witness :
     let sp := opsSpec ["foo".toList, "foo".toList, "foo_2".toList]
     let c := demoCfg "client" none
     treeDiff (forceTree id c sp) (diffTree id c sp) = [] ∧
-    (forceTree id c sp).lookup ["endpoints".toList, "default.py".toList] = some "foo\nfoo_2\nfoo_2".toList ∧
+    (forceTree id c sp).lookup ["endpoints".toList, "default.py".toList] = some "foo\nfoo_2\nfoo_2_2".toList ∧
     showDiffs (forceTree id c sp) (diffTree id c sp) = false := by
   decide +kernel
 
